@@ -264,6 +264,23 @@ def side_rules(ctx, bs, copies, direction=False):
     fl = bs.afl
     cfg = fl.cfg
     A = bs.apply
+    # a delivery that takes its bytes from a DONOR - a file other than the peer's copy of this path (a sibling the scan saw with the
+    # wanted hash): the scan is a snapshot, earlier actions of the same run rewrite files, so the donor has to be hashed at the time
+    # of use.  No content check of any kind on the way = the copy delivers whatever the donor holds now (violation); with one,
+    # whether the check is the right one is in the values (NO-VERDICT).  Donor copies are then left out of the direction rules.
+    F_ = bs.F if hasattr(bs, 'F') else None
+    donors = [c for c in copies if c[3][0] == 'live' and c[2][0] == 'other' and any(a in bs.arm_of(c[0]) for a in ('PropagateAtoB', 'PropagateBtoA', 'DeleteVsModify'))]
+    if donors and F_ is not None:
+        hashed = False
+        for xb in [A] + [n for n in F_.nested(A.path.split('::{')[0]) if n is not A] + [bd for p_, bd in F_.bodies.items() if bd.file == A.file and '::{closure' in p_]:
+            if flow_of(xb).calls(lambda c: c.endswith('fingerprint_path') or c in ('blake3::hash', 'blake3::Hasher::finalize')):
+                hashed = True
+        if hashed:
+            ctx.undecided('C02.R4', 'apply can deliver from a local donor file (found through an index of the scan) after hashing something at the time of use: that the donor is the one hashed and the digest the wanted one is not decided')
+        else:
+            ctx.bad('C02.R4', 'apply:unverified-donor', 'apply delivers a path by copying ANOTHER file of the receiving side that the scan saw with the wanted hash, and never hashes it at the time of use: '
+                    'an earlier action of the same run may have rewritten that file - the delivered bytes are then not the version the plan propagates, while the archive records the wanted hash', term_loc(A, donors[0][0]))
+        copies = [c for c in copies if c not in donors]
     # Propagate arms
     for arm, s, d in (('PropagateAtoB', 'a', 'b'), ('PropagateBtoA', 'b', 'a')):
         cs = [c for c in copies if arm in bs.arm_of(c[0])]
